@@ -918,10 +918,13 @@ func (s *Server) handleBlockCmd(p Peer, block *block.Block) error {
 		return nil
 	}
 	if s.stateSync.IsActive() {
-		if s.stateSync.NeedBlocks() {
-			// P2P state exchange: nothing else drains this queue.
-			s.bSyncQueueRun.Do(func() { go s.bSyncQueue.Run() })
+		if !s.stateSync.NeedBlocks() {
+			// Headers and state first: the queue asks the module for its block
+			// height, which is not defined before they are in sync.
+			return nil
 		}
+		// P2P state exchange: nothing else drains this queue.
+		s.bSyncQueueRun.Do(func() { go s.bSyncQueue.Run() })
 		return s.bSyncQueue.Put(block)
 	}
 	return s.bQueue.Put(block)
